@@ -365,7 +365,9 @@ def task_order(version, fixed, label):
     m, vc = sess.m, sess.vc
     obj, vec, mod = O.make_object(sess, chk, version, vars_, label)
     cls = mod.globals["CVSS%d" % version]
-    for pname, order in permutations_of(version):
+    # v3 (48 sessions with real scoring): the reversal only in the quick tier
+    perms = permutations_of(version) if (version != 3 or C.tier() == "thorough") else permutations_of(version)[:1]
+    for pname, order in perms:
         def mk_replay(model, what, order=order):
             return {"kind": "relational", "property": "C05", "clause": "order", "version": version, "a": sess.vector_string(version, model),
                     "b": sess.concretize(sess.vector_from_vars(version, vars_, order=order), model), "what": what, "compare": "all"}
